@@ -4,50 +4,75 @@ Method: the REAL SplitDistribution / TreeArray / TreeList / treesum code is run 
 "posterior-like" samples while hooks watch it.  A DendroPy-free reference distribution
 (vf.props._c05_util.RefDist: weighted split counts as Fractions, per-split edge lengths and
 node ages) is registered for every SplitDistribution the library constructs (hook on
-``__init__``; a TreeArray's *requested* flags override those of its private distribution) and
-is advanced in lock-step by the hook on ``count_splits_on_tree`` from the raw child lists of
-the tree that is being counted.  Queries are interleaved with additions, so a frequency or
-summary table cached before "count more trees" must have been invalidated.
+``__init__``) and is advanced in lock-step by the hook on ``count_splits_on_tree`` from the raw
+child lists of the tree that is being counted; merges (TreeArray.extend / += / + / update,
+SplitDistribution.update) and TreeArray.insert are followed at the API boundary.  Queries are
+interleaved with additions, so a table cached before "count more trees" must have been invalidated.
+
+Requests are judged at the API boundary: every public entry point (TreeList.consensus /
+split_distribution / as_tree_array / maximum_*_tree, TreeArray.from_tree_list / consensus_tree /
+summarize_splits_on_tree / collapse_... / maximum_*_tree / restore_tree / +, SplitDistribution.*,
+treesum.consensus_tree, TreeSummarizer.*) pushes a frame with what the CALLER asked for (threshold,
+summarisation settings, construction flags).  The judges take the values of the outermost frame, so an
+alias that drops or alters an argument is judged against the caller's request (key
+``<route>-request-not-honoured|...``); an object handed back by an outer entry point that no inner judge
+has seen, or that was restructured afterwards, is judged at the outer boundary.
 
 Oracle clauses actually implemented
   F  frequency: sd[mask] == sum(w[s in T]) / sum(w) for every split of the reference (trivial
      ones and the root included), 0.0 for masks of splits in no tree, no positive entry in
-     ``split_frequencies`` for such a split; splits returned by count_splits_on_tree == splits
-     of the tree, each once, with that tree's length / node age.
-  C  consensus (SplitDistribution.consensus_tree, reached through TreeArray.consensus_tree,
-     TreeList.consensus, treesum.TreeSummarizer.tree_from_splits): every namespace taxon on
-     exactly one node, rooting state of the inputs; threshold > 1/2: non-trivial splits ==
-     {s : f(s) >= thr}; threshold <= 1/2 or None: all splits >= thr, pairwise compatible, every
-     excluded admissible split conflicts with an included split of >= frequency (tie-agnostic
-     greedy characterisation; implies maximality).
-  S  every summarised tree (consensus, members, unrelated targets, max-credibility trees):
-     node.support / annotation / label == f(split of the node) (x100 with percentages);
-     edge.length_{mean,median,range,sd} and node.age_{...} == statistics-module values of the
-     reference value lists; set_edge_lengths in {support, mean-length, median-length} and node.age
-     for {mean-age, median-age}.
-  K  collapse_edges_with_less_than_minimum_support: surviving internal splits == those of the
-     tree with f >= thr, nothing new, same leaves, every root-to-tip distance kept.
-  M  maximum_{product,sum}_of_split_support_tree: returned index is an argmax of the scores the
-     collection reports and the tree has the topology of an input tree attaining that maximum.
+     ``split_frequencies`` / ``calc_freqs()`` for such a split; splits returned by count_splits_on_tree ==
+     splits of the tree, each once, with that tree's length / node age;
+     TreeList.frequency_of_bipartition (split_bitmask= / labels= / taxa= / bipartition=) == the unweighted
+     fraction of the list's trees containing the split (present and absent splits).
+  C  consensus (SplitDistribution.consensus_tree, TreeArray.consensus_tree, TreeList.consensus,
+     treesum.consensus_tree, TreeSummarizer.consensus_tree / tree_from_splits): every namespace taxon on
+     exactly one node, rooting state of the inputs; no split that occurs in no tree; threshold > 1/2:
+     non-trivial splits == {s : f(s) >= thr}; threshold <= 1/2 or None: all splits >= thr, pairwise
+     compatible, every excluded admissible split conflicts with an included split of >= frequency
+     (tie-agnostic greedy characterisation; implies maximality).
+  S  every summarised tree (consensus, members, unrelated targets, max-credibility and restored trees, trees
+     summarised a second time after the collection has grown and after a change in place):
+     node.support / annotation / label (decimals or compose function) == f(split of the node) (x100 with
+     percentages), exactly one annotation of a name; edge.length_{mean,median,range,sd} and node.age_{...}
+     (attributes and / or annotations, as requested) == statistics-module values of the reference value
+     lists; set_edge_lengths in {support, mean-length, median-length} and node.age for {mean-age, median-age};
+     split_support_iter == the frequencies of the tree's splits; legacy annotate_nodes_and_edges /
+     summarize_edge_lengths_on_tree / summarize_node_ages_on_tree (default = mean).
+  K  collapse_edges_with_less_than_minimum_support (SplitDistribution and TreeArray): surviving internal
+     splits == those of the tree with f >= thr, nothing new, same leaves, every root-to-tip distance kept.
+  M  maximum_{product,sum}_of_split_support_tree (TreeArray and TreeList): the monitor asks the collection
+     itself for its scores (calculate_*_of_split_supports with the caller's include_external_splits) and the
+     returned tree must have the topology of an input tree attaining the maximum of those scores.
+
+Exceptions: nothing is swallowed.  The documented ValueError of a mean / median request is accepted only
+when the reference has no length / age values either, that of collapse only when the rooting state of the
+target differs from that of the counted trees (both are driven deliberately); otherwise
+``...|raised-on-valid-request|...``.  Any other exception is reported by the hook that saw it or by the driver.
 
 Soundness limits (deliberately NOT demanded)
-  * leaves carry exactly the namespace's taxa; one rooting state per collection; weights >= 0, not
-    all zero; a dominant weight is at most 1000x the others (the library treats f within 1e-7 of 1
-    as 1 when min_freq is ~1);
+  * leaves carry exactly the namespace's taxa; one rooting state per collection (True / False: the statement
+    says "both rooting states", is_rooted=None is not generated); weights >= 0; when all weights counted so
+    far are 0 nothing is judged; a dominant weight is at most 1000x the others (the library treats f within
+    1e-7 of 1 as 1 when min_freq is ~1); only collections with equal flags are merged;
   * on workloads whose float sums are inexact (non-dyadic weights) a split within 1e-9 of the
     threshold is a don't-care and values are compared to 1e-9 relative; dyadic workloads are exact;
   * length / age summaries are judged only for splits whose value is present in every tree that
-    has the split (a missing length has no value); sd is not judged for a single value (the sample
-    sd is undefined there; the library reports inf); sd is compared in variance space
-    (|sd^2 - var| <= 1e-9 (var + mean^2)) because the statement does not prescribe an algorithm;
-  * hpd / quantile summaries, the scores of the credibility trees themselves (only compared with
-    the reference formula as a recorded note) and the edge lengths *derived* from mean ages are
-    not judged; node ages only on rooted ultrametric inputs; the lengths of restored trees are not
-    judged (the statement speaks of the topology);
+    has the split (a missing length has no value; TreeArray's substitution of 0 is not judged); sd is not
+    judged for a single value (the sample sd is undefined there; the library reports inf); sd is compared in
+    variance space (|sd^2 - var| <= 1e-9 (var + mean^2)) because the statement does not prescribe an algorithm;
+  * hpd / quantile summaries, the scores themselves (TreeArray.calculate_*, SplitDistribution.*_on_tree: only
+    compared with the reference formula as a recorded note; the statement makes the collection's own scores
+    the yardstick), the score attributes set on the returned trees and the edge lengths *derived* from mean
+    ages are not judged; node ages only on rooted ultrametric inputs; the lengths of restored trees are not
+    judged (the statement speaks of the topology); summariser options outside the statement's list
+    (minimum_edge_length, error_on_negative_edge_lengths, *_attr_name / *_annotation_name,
+    is_*_annotation_dynamic, taxon_label_age_map, is_force_max_age) are not set;
   * once a frequency violation has been reported for a distribution nothing downstream of it is
-    judged (its consensus / supports would only repeat the same root cause under other keys); a
-    node that carries the mask of another split (is_bipartitions_updated=True on a tree whose
-    bipartitions are wrong) is reported once under the mask mechanism and not judged further.
+    judged (its consensus / supports would only repeat the same root cause under other keys), likewise the
+    length / age summaries after a wrong value at counting time; a node that carries the mask of another
+    split (is_bipartitions_updated=True on a tree whose bipartitions are wrong) is reported once under the
+    mask mechanism and not judged further.
 
 Mechanism keys of the defects confirmed on the pinned tree (directed witnesses in run_directed)
   frequency|wrong-value|TreeArray-use_tree_weights-False-ignored
@@ -55,6 +80,9 @@ Mechanism keys of the defects confirmed on the pinned tree (directed witnesses i
   summary|sd-is-a-complex-number|one-pass-variance-negative
   treesum.tree_from_splits|unexpected-exception|TypeError|_mean_and_variance_pop_n
   count|same-split-counted-twice-in-one-tree|unrooted      (unifurcation next to a bifurcating root)
+  count|same-split-counted-twice-in-one-tree|unrooted|basal-bifurcation-of-two-leaves   (two-taxon namespace)
+  legacy-summarize_node_ages_on_tree|node-age-summary-wrong|mean|target-never-encoded
+  legacy-summarize_edge_lengths_on_tree|unexpected-exception|TypeError|...<lambda>      (edge without a length)
 The monitor layer (class Monitor) and the reference model live in _c05_util.py.
 """
 import random
@@ -67,45 +95,118 @@ from ._c05_util import Monitor
 
 PROP = "C05"
 LEVEL = "exploration"
-TECHNIQUE = "lock-step reference distribution + hooks on the real SplitDistribution/TreeArray/TreeList"
+TECHNIQUE = ("lock-step reference distribution + hooks on the real SplitDistribution/TreeArray/TreeList/treesum; "
+             "requests judged at the API boundary (outermost caller's threshold / settings / flags)")
 LEVEL_TEXT = "runtime monitoring of generated tree samples against a lock-step reference model"
-LEVEL_NOTE = ("held = no oracle clause failed on the executions explored (exhaustive pairs of 4-taxon shapes, "
+LEVEL_NOTE = ("held = no oracle clause failed on the executions explored (exhaustive pairs of 1-4-taxon shapes, "
               "seeded random posterior-like samples); not a proof")
-RULE = ("cases = directed witnesses | all unordered pairs of 4-taxon shapes x rooting | seeded small multisets | "
-        "lock-step samples (base tree + NNI/SPR walk, 1-12 / 1-60 trees, 4-9 / 4-25 taxa) x rooting x weight vector x "
-        "length pattern x route (SplitDistribution / TreeArray / TreeList) x thresholds x summarisation settings | "
-        "legacy treesum route; non-trivial = the sample has a split with 0 < f < 1; distinct = distinct "
+RULE = ("cases = directed witnesses | all unordered pairs of 1-, 2-, 3- and 4-taxon shapes x rooting | seeded small "
+        "multisets | lock-step samples (base tree + NNI/SPR walk, 1-12 / 1-60 trees, 4-9 / 4-25 taxa) x rooting x weight "
+        "vector x length pattern x route (SplitDistribution / TreeArray add_tree-append-insert-add_trees / TreeList + its "
+        "array constructors / merge of 2-3 partial collections by extend, +=, +, update, SplitDistribution.update) x object "
+        "history (tree counted, changed in place, counted again; target summarised, collection grown, target changed, "
+        "summarised / collapsed again; is_bipartitions_updated honest True) x thresholds x summarisation settings "
+        "(attributes / annotations / labels / compose function / edge-length modes, incl. deliberately unanswerable "
+        "ones) | legacy treesum routes; non-trivial = the sample has a split with 0 < f < 1; distinct = distinct "
         "(multiset of canonical topologies, rooting, weights, route, flags)")
 REACH = ["treecollectionmodel:SplitDistribution.count_splits_on_tree",
          "treecollectionmodel:SplitDistribution.calc_freqs",
          "treecollectionmodel:SplitDistribution.calc_normalization_weight",
          "treecollectionmodel:SplitDistribution.consensus_tree",
+         "treecollectionmodel:SplitDistribution.update",
+         "treecollectionmodel:SplitDistribution.split_support_iter",
+         "treecollectionmodel:SplitDistribution.sum_of_split_support_on_tree",
+         "treecollectionmodel:SplitDistribution.log_product_of_split_support_on_tree",
          "_tree:Tree.from_split_bitmasks",
          "treecollectionmodel:SplitDistributionSummarizer.summarize_splits_on_tree",
          "treecollectionmodel:TreeArray.calculate_log_product_of_split_supports",
          "treecollectionmodel:TreeArray.calculate_sum_of_split_supports",
          "treecollectionmodel:SplitDistribution.collapse_edges_with_less_than_minimum_support",
+         "treecollectionmodel:TreeArray.collapse_edges_with_less_than_minimum_support",
          "_edge:Edge.collapse",
          "treecollectionmodel:TreeList.split_distribution",
          "treecollectionmodel:TreeList.consensus",
+         "treecollectionmodel:TreeList.as_tree_array",
+         "treecollectionmodel:TreeList.frequency_of_bipartition",
+         "treecollectionmodel:TreeList.maximum_product_of_split_support_tree",
+         "treecollectionmodel:TreeList.maximum_sum_of_split_support_tree",
+         "treecollectionmodel:TreeArray.from_tree_list",
+         "treecollectionmodel:TreeArray.add_trees",
+         "treecollectionmodel:TreeArray.insert",
+         "treecollectionmodel:TreeArray.update",
+         "treecollectionmodel:TreeArray.extend",
+         "treecollectionmodel:TreeArray.__iadd__",
+         "treecollectionmodel:TreeArray.__add__",
          "treecollectionmodel:TreeArray.consensus_tree",
+         "treecollectionmodel:TreeArray.summarize_splits_on_tree",
          "treecollectionmodel:TreeArray.maximum_product_of_split_support_tree",
          "treecollectionmodel:TreeArray.maximum_sum_of_split_support_tree",
          "treecollectionmodel:TreeArray.restore_tree",
          "statistics:summarize",
-         "treesum:TreeSummarizer.tree_from_splits"]
-MIN_EVENTS = {"lockstep-advance": (3000, 100000), "freq-checked": (20000, 1000000),
-              "cache-invalidation-observed": (300, 10000), "consensus-checked": (1500, 50000),
-              "consensus-majority-checked": (500, 15000), "consensus-greedy-checked": (500, 15000),
-              "support-checked": (10000, 400000), "summary-stat-checked": (5000, 200000),
-              "age-summary-stat-checked": (300, 10000),
-              "collapse-checked": (200, 8000), "maxcred-checked": (200, 8000),
-              "hook:SplitDistribution.count_splits_on_tree:return": (3000, 100000)}
+         "treesum:consensus_tree",
+         "treesum:TreeSummarizer.consensus_tree",
+         "treesum:TreeSummarizer.tree_from_splits",
+         "treesum:TreeSummarizer.map_split_support_to_tree",
+         "treesum:TreeSummarizer.annotate_nodes_and_edges",
+         "treesum:TreeSummarizer.summarize_edge_lengths_on_tree",
+         "treesum:TreeSummarizer.summarize_node_ages_on_tree"]
+# (quick, thorough) minima: roughly 45 % of the counts of clean runs
+MIN_EVENTS = {
+    "lockstep-advance": (32000, 900000),
+    "freq-checked": (190000, 3700000),
+    "absent-split-checked": (48000, 720000),
+    "cache-invalidation-observed": (2100, 28000),
+    "consensus-checked": (13500, 140000),
+    "consensus-majority-checked": (4400, 56000),
+    "consensus-greedy-checked": (9000, 86000),
+    "support-checked": (155000, 3400000),
+    "summary-stat-checked": (600000, 13000000),
+    "age-summary-stat-checked": (43000, 1300000),
+    "summary-annotation-read": (50000, 1000000),
+    "support-label-checked": (40000, 1200000),
+    "collapse-checked": (1900, 24000),
+    "root-to-tip-checked": (11000, 250000),
+    "maxcred-checked": (2500, 25000),
+    "maxcred-checked:TreeList": (2400, 24000),
+    "maxcred-checked:discriminating": (1250, 13000),
+    "merge-followed": (500, 6800),
+    "merge-followed:SplitDistribution.update": (90, 1300),
+    "merge-followed:TreeArray.__add__": (80, 1300),
+    "merge-followed:TreeArray.__iadd__": (90, 1300),
+    "merge-followed:TreeArray.extend": (90, 1300),
+    "merge-followed:TreeArray.update": (90, 1300),
+    "freq-checked-after:merged": (250, 6300),
+    "consensus-checked-after-merge": (600, 9200),
+    "support-checked-after-merge": (1100, 17000),
+    "maxcred-checked-after:merged": (120, 3500),
+    "insert-followed": (500, 20000),
+    "maxcred-checked-after:inserted": (190, 9000),
+    "counted-again-after-change-in-place": (270, 12000),
+    "member-changed-in-place-between-queries": (500, 10000),
+    "same-tree-summarised-again": (700, 15000),
+    "same-tree-summarised-again:changed-in-place": (370, 7500),
+    "treelist-frequency-checked": (3400, 42000),
+    "support-iter-checked": (650, 10000),
+    "calc_freqs-called-directly": (370, 6200),
+    "restore-checked": (300, 5200),
+    "documented-error:collapse:ValueError": (100, 1700),
+    "documented-error:summarize:ValueError": (130, 2300),
+    "legacy-annotate-checked": (50, 480),
+    "legacy-value-checked:edge-length": (300, 5100),
+    "legacy-value-checked:node-age": (20, 670),
+    "hook:SplitDistribution.count_splits_on_tree:return": (32000, 900000),
+    "hook:TreeArray.summarize_splits_on_tree:return": (1900, 35000),
+    "hook:TreeArray.collapse_edges_with_less_than_minimum_support:return": (1500, 16000),
+    "hook:TreeList.consensus:return": (4400, 35000),
+}
 ASSUMPTIONS = ["TaxonNamespace.taxon_bitmask is the given taxon->bit assignment (C10) and Tree.encode_bipartitions "
                "labels edges with the masks of their clades (C01); the reference works on label sets and only maps "
                "a label set to a mask to address the library's tables",
                "reference trees are extracted from the raw child lists immediately before each counting call",
-               "Python's statistics module is the arbiter for mean / median / sample variance"]
+               "Python's statistics module is the arbiter for mean / median / sample variance",
+               "a merge is followed at the API boundary as 'self followed by other' (the documented list semantics "
+               "of extend / += / + / update); TreeArray.insert(index) places the tree at list position index",
+               "TreeList.frequency_of_bipartition is documented as the unweighted proportion of the list's trees"]
 CASE_TIMEOUT = 120
 
 def shard_setup(ctx):
@@ -114,7 +215,8 @@ def shard_setup(ctx):
 
 DIRECTED = ("treearray-use_tree_weights-false", "rooted-mcct-support", "legacy-consensus-no-root-length",
             "identical-float-lengths-sd", "stale-cache-after-more-trees", "boundary-thresholds",
-            "unary-near-root-unrooted")
+            "unary-near-root-unrooted", "merge-then-query", "changed-in-place-then-requeried",
+            "requests-through-aliases")
 
 
 def cases(tier, seed):
@@ -125,10 +227,16 @@ def cases(tier, seed):
         for i in range(n4):
             for j in range(i, n4):
                 yield {"kind": "small", "idx": [i, j], "rooted": rooted}
+    for n in (1, 2, 3):                  # namespaces too small for a non-trivial split
+        k = len(gen.all_shapes(n))
+        for rooted in (True, False):
+            for i in range(k):
+                for j in range(i, k):
+                    yield {"kind": "tiny", "n": n, "idx": [i, j], "rooted": rooted}
     quick = tier == "quick"
     for i in range(800 if quick else 8000):
         yield {"kind": "smallrand", "i": i, "seed": seed}
-    for i in range(3000 if quick else 45000):
+    for i in range(3000 if quick else 40000):
         yield {"kind": "lock", "i": i, "seed": seed}
     for i in range(400 if quick else 4000):
         yield {"kind": "legacy", "i": i, "seed": seed}
@@ -239,6 +347,23 @@ def build(spec, ns, rooted, weight=None):
     return t
 
 
+def drive(ctx, mon, op, fn, *a, **k):
+    """call library code.  Nothing is swallowed: an exception that no hook has judged (accepted as the
+    documented error of the request, or reported) is reported here."""
+    try:
+        return True, fn(*a, **k)
+    except Exception as e:
+        if mon.seen_by_hooks(e):
+            ctx.ev("exception-judged-by-a-hook")
+        else:
+            mon.report_exc(op, e)
+        return False, e
+
+
+def compose_label(f):
+    return "s=%r" % (f,)
+
+
 def rand_summ_kwargs(rng, lengths_ok, ages_ok):
     kw = {}
     if rng.random() < 0.4:
@@ -247,19 +372,89 @@ def rand_summ_kwargs(rng, lengths_ok, ages_ok):
         kw["set_support_as_node_label"] = True
         if rng.random() < 0.6:
             kw["support_label_decimals"] = rng.choice([0, 1, 2, 6])
+        elif rng.random() < 0.25:
+            kw["support_label_compose_fn"] = compose_label
     if rng.random() < 0.15:
         kw["add_support_as_node_attribute"] = False
     if rng.random() < 0.15:
         kw["add_support_as_node_annotation"] = False
+    for name in ("add_edge_length_summaries_as_edge_attributes", "add_edge_length_summaries_as_edge_annotations",
+                 "add_node_age_summaries_as_node_attributes", "add_node_age_summaries_as_node_annotations"):
+        if rng.random() < 0.1:
+            kw[name] = False
     opts = [None, None, "support", "keep", "clear"]
     if lengths_ok:
         opts += ["mean-length", "median-length", "mean-length"]
     if ages_ok:
         opts += ["mean-age", "median-age", "mean-age"]
     sel = rng.choice(opts)
+    if rng.random() < 0.03:
+        # whether or not the collection has the values: the documented ValueError is accepted only when it has not
+        sel = rng.choice(["mean-length", "median-length", "mean-age", "median-age"])
     if sel is not None:
         kw["set_edge_lengths"] = sel
     return kw
+
+
+def mutate_in_place(tree, rng, keep_depths=False):
+    """change a tree OBJECT that the library has already seen (encoded / counted / summarised): swap the taxa of
+    two leaves, swap two subtrees, contract an internal edge, change lengths or the weight.  Only the node API
+    is used; bipartitions are NOT re-encoded (that is the callee's job when is_bipartitions_updated is False)."""
+    nodes = []
+    stack = [tree.seed_node]
+    while stack:
+        nd = stack.pop()
+        nodes.append(nd)
+        stack.extend(nd._child_nodes)
+    leaves = [nd for nd in nodes if not nd._child_nodes]
+    how = rng.choice(["leaf-swap", "leaf-swap", "subtree-swap", "contract", "lengths", "weight"])
+    if keep_depths and how in ("subtree-swap", "contract", "lengths"):
+        how = "leaf-swap"
+    if how == "leaf-swap" and len(leaves) >= 2:
+        a, b = rng.sample(leaves, 2)
+        a.taxon, b.taxon = b.taxon, a.taxon
+    elif how == "subtree-swap":
+        cands = [nd for nd in nodes if nd._parent_node is not None]
+        for _ in range(8):
+            if len(cands) < 2:
+                break
+            a, b = rng.sample(cands, 2)
+            if a._parent_node is b._parent_node:
+                continue
+
+            def below(x, y):       # is x below-or-at y
+                while x is not None:
+                    if x is y:
+                        return True
+                    x = x._parent_node
+                return False
+            if below(a, b) or below(b, a):
+                continue
+            pa, pb = a._parent_node, b._parent_node
+            pa.remove_child(a)
+            pb.remove_child(b)
+            pa.add_child(b)
+            pb.add_child(a)
+            break
+    elif how == "contract":
+        cands = [nd for nd in nodes if nd._parent_node is not None and nd._child_nodes]
+        if cands:
+            v = rng.choice(cands)
+            p = v._parent_node
+            kids = list(v._child_nodes)
+            p.remove_child(v)
+            v.clear_child_nodes()
+            for c in kids:
+                if c.edge.length is not None and v.edge.length is not None:
+                    c.edge.length = c.edge.length + v.edge.length
+                p.add_child(c)
+    elif how == "lengths":
+        for nd in nodes:
+            if nd._parent_node is not None and nd.edge.length is not None and rng.random() < 0.5:
+                nd.edge.length = nd.edge.length + rng.randint(1, 8) / 4.0
+    else:
+        tree.weight = rng.choice([None, 1.0, 2.0, 0.5, 3.0])
+    return how
 
 
 def nontrivial_sig(ctx, r, extra):
@@ -268,61 +463,89 @@ def nontrivial_sig(ctx, r, extra):
                         [repr(w) for w in r.weights], extra))
 
 
-def query_bundle(ctx, mon, rng, sd, ta, specs, ns, rooted, lengths_ok, ages_ok, heavy=True, summarise_first=False):
-    """one round of queries on the distribution in its current state."""
+def make_target(rng, mon, r, ns, rooted):
+    which = rng.choice(["member", "member", "nni", "unrelated"])
+    if which == "member":
+        tspec = ref.copy(rng.choice(r.specs))
+    elif which == "nni":
+        tspec = gen.nni(rng.choice(r.specs), rng)
+    else:
+        tspec = gen.random_spec(rng, len(mon.full), p_poly=0.2, names=sorted(mon.full))
+        gen.decorate_lengths(tspec, rng, "dyadic")
+    return build(tspec, ns, rooted)
+
+
+def query_bundle(ctx, mon, rng, sd, ta, specs, ns, rooted, lengths_ok, ages_ok, heavy=True, summarise_first=False,
+                 kept=None):
+    """one round of queries on the distribution in its current state.  ``kept``: trees summarised in an earlier
+    round (they are summarised AGAIN here, after the collection has grown, possibly after a change in place)."""
     r = mon.ref_of(sd)
+    obj = ta if ta is not None else sd
     if summarise_first and r is not None and r.queries and not r.tainted:
         # let the summariser be the first reader after "count more trees" (it reads the length / age
         # summary tables before the frequency table)
-        tgt = build(ref.copy(rng.choice(r.specs)), ns, rooted)
-        try:
-            (ta if ta is not None else sd).summarize_splits_on_tree(tgt)
+        if kept and rng.random() < 0.5:
+            tgt = rng.choice(kept)
+        else:
+            tgt = build(ref.copy(rng.choice(r.specs)), ns, rooted)
+        mon.force_deep = True
+        ok, _ = drive(ctx, mon, "summarize_splits_on_tree", obj.summarize_splits_on_tree, tgt)
+        mon.force_deep = False
+        if ok:
             ctx.ev("summarise-first-after-addition")
-        except Exception:
-            pass
-    if not mon.check_frequencies(sd):
+    if not mon.check_frequencies(sd, direct=rng.random() < 0.1):
         return
     mon.remember_table(sd)
     r = mon.ref_of(sd)
-    obj = ta if ta is not None else sd
+    if kept:
+        # object history: a tree the summariser has decorated before is decorated again with fresh settings
+        tgt = rng.choice(kept)
+        how = None
+        if rng.random() < 0.5:
+            how = mutate_in_place(tgt, rng, keep_depths=False)
+        kw = rand_summ_kwargs(rng, lengths_ok, ages_ok)
+        mon.force_deep = True
+        ok, _ = drive(ctx, mon, "summarize_splits_on_tree", obj.summarize_splits_on_tree, tgt, **kw)
+        mon.force_deep = False
+        if ok:
+            ctx.ev("same-tree-summarised-again")
+            if how is not None:
+                ctx.ev("same-tree-summarised-again:changed-in-place")
     for _ in range(rng.choice([1, 1, 2])):
         t = pick_threshold(rng, r)
         kw = rand_summ_kwargs(rng, lengths_ok, ages_ok)
         if rng.random() < 0.15:
             kw["summarize_splits"] = False
-        try:
-            con = obj.consensus_tree(**dict(thr_kw(t), **kw))
-        except Exception:
-            con = None          # reported by the hooks
+        ok, con = drive(ctx, mon, "consensus_tree", obj.consensus_tree, **dict(thr_kw(t), **kw))
+        if not ok:
+            con = None
         if con is not None and kw.get("summarize_splits") is False and rng.random() < 0.7:
             kw2 = rand_summ_kwargs(rng, lengths_ok, ages_ok)
-            try:
-                obj.summarize_splits_on_tree(con, **kw2)
-            except Exception:
-                pass
+            drive(ctx, mon, "summarize_splits_on_tree", obj.summarize_splits_on_tree, con, **kw2)
+        if con is not None and kept is not None and len(kept) < 2 and rng.random() < 0.3:
+            kept.append(con)
     if not heavy:
         return
     if rng.random() < 0.6:
         # target trees: a member, a neighbour, an unrelated tree
-        which = rng.choice(["member", "member", "nni", "unrelated"])
-        if which == "member":
-            tspec = ref.copy(rng.choice(r.specs))
-        elif which == "nni":
-            tspec = gen.nni(rng.choice(r.specs), rng)
-        else:
-            tspec = gen.random_spec(rng, len(mon.full), p_poly=0.2, names=sorted(mon.full))
-            gen.decorate_lengths(tspec, rng, "dyadic")
-        tgt = build(tspec, ns, rooted)
+        tgt = make_target(rng, mon, r, ns, rooted)
         kw = rand_summ_kwargs(rng, lengths_ok, ages_ok)
         upd = rng.random() < 0.3
         if upd:
             tgt.encode_bipartitions()
-        try:
-            obj.summarize_splits_on_tree(tgt, is_bipartitions_updated=upd, **kw)
-        except Exception:
-            pass
+        ok, _ = drive(ctx, mon, "summarize_splits_on_tree", obj.summarize_splits_on_tree, tgt,
+                      is_bipartitions_updated=upd, **kw)
+        if ok and kept is not None and len(kept) < 2 and rng.random() < 0.5:
+            kept.append(tgt)
+    if rng.random() < 0.25:
+        tgt = make_target(rng, mon, r, ns, rooted)
+        unary = any(len(nd._child_nodes) == 1 for nd in tgt.preorder_node_iter())
+        if unary or (not rooted and len(tgt.seed_node._child_nodes) == 2) or rng.random() < 0.4:
+            # (encoding removes outdegree-1 nodes and an unrooted tree's basal bifurcation: fewer nodes to report on)
+            tgt.encode_bipartitions()
+        mon.check_support_iter(sd, tgt, rng)
     if rng.random() < 0.5:
-        which = rng.choice(["member", "nni", "unrelated", "consensus-all"])
+        which = rng.choice(["member", "nni", "unrelated", "consensus-all", "recollapse"])
         if which == "member":
             tspec = ref.copy(rng.choice(r.specs))
         elif which == "nni":
@@ -332,22 +555,27 @@ def query_bundle(ctx, mon, rng, sd, ta, specs, ns, rooted, lengths_ok, ages_ok, 
             gen.decorate_lengths(tspec, rng, "dyadic")
         else:
             tspec = None
-        if tspec is None:
-            try:
-                tgt = obj.consensus_tree(min_freq=None, summarize_splits=False)
-            except Exception:
+        if which == "recollapse" and kept:
+            # a tree the library has encoded / decorated before, changed in place, collapsed with the default flag
+            tgt = rng.choice(kept)
+            mutate_in_place(tgt, rng)
+        elif tspec is None:
+            ok, tgt = drive(ctx, mon, "consensus_tree", obj.consensus_tree, min_freq=None, summarize_splits=False)
+            if not ok:
                 tgt = None
         else:
             tgt = build(tspec, ns, rooted)
         if tgt is not None:
-            tgt.encode_bipartitions()      # the restructuring encode performs is not collapse's doing
+            if which != "recollapse" or not kept or (not rooted and len(tgt.seed_node._child_nodes) == 2):
+                tgt.encode_bipartitions()      # the restructuring encode performs is not collapse's doing
             t = pick_threshold(rng, r)
             if t is None:
                 t = 0.5
-            try:
-                obj.collapse_edges_with_less_than_minimum_support(tgt, **thr_kw(t))
-            except Exception:
-                pass
+            drive(ctx, mon, "collapse", obj.collapse_edges_with_less_than_minimum_support, tgt, **thr_kw(t))
+    if rng.random() < 0.04:
+        # the documented refusal: a target whose rooting state is not that of the counted trees
+        tgt = build(ref.copy(rng.choice(r.specs)), ns, not rooted)
+        drive(ctx, mon, "collapse", obj.collapse_edges_with_less_than_minimum_support, tgt, min_freq=0.5)
     if ta is not None and rng.random() < 0.7:
         kw = rand_summ_kwargs(rng, lengths_ok, ages_ok)
         if rng.random() < 0.2:
@@ -355,10 +583,97 @@ def query_bundle(ctx, mon, rng, sd, ta, specs, ns, rooted, lengths_ok, ages_ok, 
         if rng.random() < 0.2:
             kw["include_external_splits"] = True
         fn = ta.maximum_product_of_split_support_tree if rng.random() < 0.5 else ta.maximum_sum_of_split_support_tree
-        try:
-            fn(**kw)
-        except Exception:
-            pass
+        drive(ctx, mon, "max-credibility-tree", fn, **kw)
+    if ta is not None and len(ta) and rng.random() < 0.2:
+        kw = rand_summ_kwargs(rng, lengths_ok, ages_ok)
+        drive(ctx, mon, "restore_tree", ta.restore_tree, rng.randrange(len(ta)), summarize_splits_on_tree=True, **kw)
+
+
+def add_to_array(ctx, mon, rng, ta, t):
+    """one accession through a random route of the TreeArray interface."""
+    upd = rng.random() < 0.2
+    if upd:
+        t.encode_bipartitions()
+    x = rng.random()
+    if x < 0.4:
+        return drive(ctx, mon, "TreeArray.add_tree", ta.add_tree, t, is_bipartitions_updated=upd)[0]
+    if x < 0.7:
+        return drive(ctx, mon, "TreeArray.append", ta.append, t, is_bipartitions_updated=upd)[0]
+    if x < 0.85:
+        return drive(ctx, mon, "TreeArray.insert", ta.insert, rng.randrange(len(ta) + 1), t,
+                     is_bipartitions_updated=upd)[0]
+    return drive(ctx, mon, "TreeArray.add_trees", ta.add_trees, [t], is_bipartitions_updated=upd)[0]
+
+
+def run_merge(ctx, mon, rng, trees, specs, ns, rooted, use_w, ign_len, ages, lengths_ok):
+    """merge routes: partial collections (one may be empty, one may have filled its caches) are combined by
+    TreeArray.extend / += / + / update or SplitDistribution.update; the merged collection is queried, grown
+    and queried again."""
+    import dendropy
+    m = len(trees)
+    mode = rng.choice(["extend", "iadd", "add", "update", "sd.update"])
+    nparts = rng.choice([2, 2, 3])
+    hold = rng.choice([0, 0, 1, 2]) if m > 2 else 0          # trees added after the merge
+    body = trees[:m - hold]
+    cuts = sorted(rng.randint(0, len(body)) for _ in range(nparts - 1))
+    groups = [body[a:b] for a, b in zip([0] + cuts, cuts + [len(body)])]
+    parts = []
+    for g in groups:
+        if mode == "sd.update":
+            p = dendropy.SplitDistribution(taxon_namespace=ns, use_tree_weights=use_w, ignore_edge_lengths=ign_len,
+                                           ignore_node_ages=not ages)
+            for t in g:
+                if not drive(ctx, mon, "count_splits_on_tree", p.count_splits_on_tree, t)[0]:
+                    return None
+            psd = p
+        else:
+            p = dendropy.TreeArray(taxon_namespace=ns, use_tree_weights=use_w, ignore_edge_lengths=ign_len,
+                                   ignore_node_ages=not ages, is_rooted_trees=rng.choice([None, rooted]))
+            for t in g:
+                if not add_to_array(ctx, mon, rng, p, t):
+                    return None
+            psd = p.split_distribution
+        if g and rng.random() < 0.5:
+            # the part has answered queries (its caches are filled) before it is merged
+            query_bundle(ctx, mon, rng, psd, None if mode == "sd.update" else p, specs, ns, rooted, lengths_ok, ages,
+                         heavy=False)
+        parts.append(p)
+    merged = parts[0]
+    for p in parts[1:]:
+        if mode == "extend":
+            ok, _ = drive(ctx, mon, "TreeArray.extend", merged.extend, p)
+        elif mode == "iadd":
+            ok, res = drive(ctx, mon, "TreeArray.__iadd__", merged.__iadd__, p)
+            if ok:
+                merged = res
+        elif mode == "add":
+            ok, res = drive(ctx, mon, "TreeArray.__add__", merged.__add__, p)
+            if ok:
+                merged = res
+        elif mode == "update":
+            ok, _ = drive(ctx, mon, "TreeArray.update", merged.update, p)
+        else:
+            ok, _ = drive(ctx, mon, "SplitDistribution.update", merged.update, p)
+        if not ok:
+            return None
+    if mode == "sd.update":
+        sd, ta = merged, None
+    else:
+        sd, ta = merged.split_distribution, merged
+    kept = []
+    query_bundle(ctx, mon, rng, sd, ta, specs, ns, rooted, lengths_ok, ages, summarise_first=use_w and rng.random() < 0.3,
+                 kept=kept)
+    for t in trees[m - hold:]:
+        if ta is None:
+            ok = drive(ctx, mon, "count_splits_on_tree", sd.count_splits_on_tree, t)[0]
+        else:
+            ok = add_to_array(ctx, mon, rng, ta, t)
+        if not ok:
+            return sd
+    if hold:
+        query_bundle(ctx, mon, rng, sd, ta, specs, ns, rooted, lengths_ok, ages, summarise_first=use_w and rng.random() < 0.4,
+                     kept=kept)
+    return sd
 
 
 def run_lock(case, ctx, rng):
@@ -369,7 +684,7 @@ def run_lock(case, ctx, rng):
     rooted = rng.random() < 0.5
     length_mode = rng.choice(LENGTH_MODES)
     weight_mode = rng.choice(WEIGHT_MODES)
-    route = rng.choice(["sd", "ta", "ta", "tl"])
+    route = rng.choice(["sd", "ta", "ta", "tl", "tl", "merge", "merge"])
     use_w = rng.random() < 0.7
     p_unary = 0.25 if rng.random() < 0.06 else 0.0
     labels, specs = make_sample(rng, n, m, rooted, length_mode, p_unary)
@@ -389,6 +704,7 @@ def run_lock(case, ctx, rng):
         for _ in range(2 if quick else 3):
             steps.add(rng.randrange(m))
         sd = ta = None
+        kept = []
         if route == "sd":
             sd = dendropy.SplitDistribution(taxon_namespace=ns, use_tree_weights=use_w, ignore_edge_lengths=ign_len,
                                             ignore_node_ages=not ages)
@@ -396,69 +712,92 @@ def run_lock(case, ctx, rng):
                 upd = rng.random() < 0.2
                 if upd:
                     t.encode_bipartitions()
-                try:
-                    sd.count_splits_on_tree(t, is_bipartitions_updated=upd)
-                except Exception:
+                if not drive(ctx, mon, "count_splits_on_tree", sd.count_splits_on_tree, t, is_bipartitions_updated=upd)[0]:
                     return
+                if i and rng.random() < 0.12:
+                    # object history: a tree that has been encoded and counted is changed in place and counted
+                    # again (as a further member of the multiset) with the default is_bipartitions_updated=False
+                    old = trees[rng.randrange(i)]
+                    mutate_in_place(old, rng, keep_depths=ages)
+                    if not drive(ctx, mon, "count_splits_on_tree", sd.count_splits_on_tree, old)[0]:
+                        return
+                    ctx.ev("counted-again-after-change-in-place")
                 if i in steps:
                     query_bundle(ctx, mon, rng, sd, None, specs, ns, rooted, lengths_ok, ages,
-                                 summarise_first=rng.random() < 0.4)
+                                 summarise_first=rng.random() < 0.4, kept=kept)
         elif route == "ta":
             ta = dendropy.TreeArray(taxon_namespace=ns, use_tree_weights=use_w, ignore_edge_lengths=ign_len,
                                     ignore_node_ages=not ages,
                                     is_rooted_trees=rng.choice([None, rooted]))
             sd = ta.split_distribution
             for i, t in enumerate(trees):
-                try:
-                    if rng.random() < 0.5:
-                        ta.add_tree(t)
-                    else:
-                        ta.append(t)
-                except Exception as e:
-                    ctx.unexpected("TreeArray.add_tree", e)
+                if not add_to_array(ctx, mon, rng, ta, t):
                     return
+                if i and rng.random() < 0.12:
+                    old = trees[rng.randrange(i)]
+                    mutate_in_place(old, rng, keep_depths=ages)
+                    if not drive(ctx, mon, "TreeArray.add_tree", ta.add_tree, old)[0]:
+                        return
+                    ctx.ev("counted-again-after-change-in-place")
                 if i in steps:
                     # (not when the known use_tree_weights defect would be mistaken for a summariser fault)
                     query_bundle(ctx, mon, rng, sd, ta, specs, ns, rooted, lengths_ok, ages,
-                                 summarise_first=use_w and rng.random() < 0.4)
+                                 summarise_first=use_w and rng.random() < 0.4, kept=kept)
+        elif route == "merge":
+            sd = run_merge(ctx, mon, rng, trees, specs, ns, rooted, use_w, ign_len, ages, lengths_ok)
         else:
             tl = dendropy.TreeList(taxon_namespace=ns)
             cut = sorted(steps)
             done = 0
+            all_encoded = rng.random() < 0.15      # every member is kept encoded: is_bipartitions_updated=True is honest
             for c in cut:
                 for t in trees[done:c + 1]:
                     tl.append(t)
+                    if all_encoded:
+                        t.encode_bipartitions()
+                if done and rng.random() < 0.6:
+                    # object history: members the list's earlier queries have encoded are changed in place
+                    for _ in range(rng.choice([1, 1, 2])):
+                        t = tl[rng.randrange(done)]
+                        mutate_in_place(t, rng, keep_depths=ages)
+                        if all_encoded:
+                            t.encode_bipartitions()
+                        ctx.ev("member-changed-in-place-between-queries")
                 done = c + 1
                 kwc = {"use_tree_weights": use_w}
                 if ages:
                     kwc["ignore_node_ages"] = False
                 if ign_len:
                     kwc["ignore_edge_lengths"] = True
-                try:
-                    sd = tl.split_distribution(**kwc)      # frequency check in the hook
-                except Exception as e:
-                    ctx.unexpected("TreeList.split_distribution", e)
+                kwu = dict(kwc)
+                if all_encoded:
+                    kwu["is_bipartitions_updated"] = True
+                ok, sd = drive(ctx, mon, "TreeList.split_distribution", tl.split_distribution, **kwu)  # frequency check in the hook
+                if not ok:
                     return
                 r = mon.ref_of(sd)
                 if r is not None and not r.tainted:
                     query_bundle(ctx, mon, rng, sd, None, specs, ns, rooted, lengths_ok, ages, heavy=rng.random() < 0.3)
+                if rng.random() < 0.5:
+                    mon.check_treelist_frequency(tl, rng)
                 t = pick_threshold(rng, r)
                 kw = rand_summ_kwargs(rng, lengths_ok, ages)
-                kw.update(kwc)
-                try:
-                    tl.consensus(**dict(thr_kw(t), **kw))
-                except ValueError as e:
-                    if kw.get("set_edge_lengths") not in ("mean-length", "median-length", "mean-age", "median-age"):
-                        ctx.unexpected("TreeList.consensus", e)
-                except Exception as e:
-                    ctx.unexpected("TreeList.consensus", e)
-                try:
+                kw.update(kwu)
+                drive(ctx, mon, "TreeList.consensus", tl.consensus, **dict(thr_kw(t), **kw))
+                kwm = {"include_external_splits": True} if rng.random() < 0.2 else {}
+                if rng.random() < 0.5:
+                    drive(ctx, mon, "TreeList.maximum_tree", tl.maximum_product_of_split_support_tree, **kwm)
+                else:
+                    drive(ctx, mon, "TreeList.maximum_tree", tl.maximum_sum_of_split_support_tree, **kwm)
+                if rng.random() < 0.35:
+                    # the list's array constructors, then the array's own queries
                     if rng.random() < 0.5:
-                        tl.maximum_product_of_split_support_tree()
+                        ok, ta2 = drive(ctx, mon, "TreeList.as_tree_array", tl.as_tree_array, **kwu)
                     else:
-                        tl.maximum_sum_of_split_support_tree()
-                except Exception as e:
-                    ctx.unexpected("TreeList.maximum_tree", e)
+                        ok, ta2 = drive(ctx, mon, "TreeArray.from_tree_list", dendropy.TreeArray.from_tree_list, tl, **kwu)
+                    if ok:
+                        query_bundle(ctx, mon, rng, ta2.split_distribution, ta2, specs, ns, rooted, lengths_ok, ages,
+                                     heavy=rng.random() < 0.5)
         r = mon.ref_of(sd) if sd is not None else None
         nontrivial_sig(ctx, r, (route, use_w, length_mode, ages))
         if case["i"] < 4 and r is not None:
@@ -482,32 +821,25 @@ def run_small(ctx, rng, shapes, rooted, weights, sample=False):
         tl = dendropy.TreeList(taxon_namespace=ns)
         for t in trees:
             tl.append(t)
-        try:
-            sd = tl.split_distribution()
-        except Exception as e:
-            ctx.unexpected("TreeList.split_distribution", e)
+        ok, sd = drive(ctx, mon, "TreeList.split_distribution", tl.split_distribution)
+        if not ok:
             return
         for t in ("default", 1.0, 0.5, 0.34, None):
-            try:
-                tl.consensus(**thr_kw(t))
-                sd.consensus_tree(**thr_kw(t))
-            except Exception as e:
-                ctx.unexpected("consensus", e)
+            drive(ctx, mon, "TreeList.consensus", tl.consensus, **thr_kw(t))
+            drive(ctx, mon, "consensus_tree", sd.consensus_tree, **thr_kw(t))
+        mon.check_treelist_frequency(tl, rng, n_queries=2)
         ta = dendropy.TreeArray(taxon_namespace=ns)
         for i, t in enumerate(trees):
-            ta.add_tree(t)
+            if not drive(ctx, mon, "TreeArray.add_tree", ta.add_tree, t)[0]:
+                return
             mon.check_frequencies(ta.split_distribution)
-        for fn in (ta.maximum_product_of_split_support_tree, ta.maximum_sum_of_split_support_tree):
-            try:
-                fn()
-            except Exception:
-                pass
+        for fn in (ta.maximum_product_of_split_support_tree, ta.maximum_sum_of_split_support_tree,
+                   tl.maximum_product_of_split_support_tree, tl.maximum_sum_of_split_support_tree):
+            drive(ctx, mon, "max-credibility-tree", fn)
         tgt = build(ref.copy(specs[-1]), ns, rooted)
         tgt.encode_bipartitions()
-        try:
-            ta.collapse_edges_with_less_than_minimum_support(tgt, min_freq=rng.choice([0.5, 0.75, 1.0]))
-        except Exception:
-            pass
+        drive(ctx, mon, "collapse", ta.collapse_edges_with_less_than_minimum_support, tgt,
+              min_freq=rng.choice([0.5, 0.75, 1.0]))
         r = mon.ref_of(sd)
         nontrivial_sig(ctx, r, "small")
         if sample and r is not None:
@@ -522,12 +854,13 @@ def run_legacy(ctx, rng):
     n = rng.choice([4, 5, 6, 8] if quick else [4, 5, 7, 10, 16])
     m = rng.choice([1, 2, 3, 5, 8] if quick else [1, 2, 3, 5, 8, 20])
     rooted = rng.random() < 0.5
-    length_mode = rng.choice(["dyadic_rootlen", "dyadic_rootlen", "none", "dyadic"])
+    length_mode = rng.choice(["dyadic_rootlen", "dyadic_rootlen", "none", "dyadic", "ultra"])
     labels, specs = make_sample(rng, n, m, rooted, length_mode)
     if length_mode == "dyadic_rootlen":
         for s in specs:
             if s[2] is None:
                 s[2] = 0.5
+    ages = length_mode == "ultra" and rooted
     ns = make_ns(labels, rng)
     trees = [build(s, ns, rooted) for s in specs]
     mon = Monitor(ctx, ns)
@@ -541,11 +874,8 @@ def run_legacy(ctx, rng):
         if rng.random() < 0.5:
             kw["support_label_decimals"] = rng.choice([0, 1, 2, 6])
         ts = treesum.TreeSummarizer(**kw)
-        sd = dendropy.SplitDistribution(taxon_namespace=ns)
-        try:
-            ts.count_splits_on_trees(trees, split_distribution=sd)
-        except Exception as e:
-            ctx.unexpected("treesum.count_splits_on_trees", e)
+        sd = dendropy.SplitDistribution(taxon_namespace=ns, ignore_node_ages=not ages)
+        if not drive(ctx, mon, "treesum.count_splits_on_trees", ts.count_splits_on_trees, trees, split_distribution=sd)[0]:
             return
         if not mon.check_frequencies(sd):
             return
@@ -553,22 +883,28 @@ def run_legacy(ctx, rng):
         t = pick_threshold(rng, r)
         t = 0.5 if t == "default" else t
         with_len = length_mode == "dyadic_rootlen"
-        try:
-            ts.tree_from_splits(sd, min_freq=t, include_edge_lengths=with_len)
-        except Exception:
-            pass
+        drive(ctx, mon, "treesum.tree_from_splits", ts.tree_from_splits, sd, min_freq=t, include_edge_lengths=with_len)
         tgt = build(gen.nni(rng.choice(specs), rng), ns, rooted)
-        try:
-            ts.map_split_support_to_tree(tgt, sd)
-        except Exception:
-            pass
+        drive(ctx, mon, "treesum.map_split_support_to_tree", ts.map_split_support_to_tree, tgt, sd)
+        # the summariser's value routes on a fresh (never encoded) target with the default flags
+        tgt = make_target(rng, mon, r, ns, rooted)
+        if rng.random() < 0.3:
+            tgt.encode_bipartitions()
+        if length_mode != "none":
+            x = rng.random()
+            if x < (0.25 if ages else 0.4):
+                drive(ctx, mon, "treesum.annotate_nodes_and_edges", ts.annotate_nodes_and_edges, tgt, sd)
+            elif x < 0.5 or not ages:
+                drive(ctx, mon, "treesum.summarize_edge_lengths_on_tree", ts.summarize_edge_lengths_on_tree, tgt, sd)
+            else:
+                drive(ctx, mon, "treesum.summarize_node_ages_on_tree", ts.summarize_node_ages_on_tree, tgt, sd)
         if with_len or rng.random() < 0.3:
-            # the module-level convenience wrapper (mean lengths are always requested by it)
+            # the convenience wrappers (mean lengths are always requested by them)
             t2 = rng.choice([0.5, 0.75, 1.0, 0.34])
-            try:
-                treesum.consensus_tree(trees, min_freq=t2, **kw)
-            except Exception:
-                pass
+            if rng.random() < 0.5:
+                drive(ctx, mon, "treesum.consensus_tree", treesum.consensus_tree, trees, min_freq=t2, **kw)
+            else:
+                drive(ctx, mon, "TreeSummarizer.consensus_tree", ts.consensus_tree, trees, min_freq=t2)
         nontrivial_sig(ctx, r, ("legacy", sorted(kw.items())))
 
 
@@ -597,6 +933,9 @@ def run_directed(case, ctx, rng):
     t1 = nested((("A", "B"), ("C", "D"), "E"))
     t2 = nested((("A", "C"), ("B", "D"), "E"))
     t3 = nested((("A", "B"), ("C", "E"), "D"))
+
+    def D(fn, *a, **k):
+        return drive(ctx, mon, "directed:" + name, fn, *a, **k)[1]
     with Hooks(ctx) as hooks:
         mon.install(hooks)
         if name == "treearray-use_tree_weights-false":
@@ -604,62 +943,59 @@ def run_directed(case, ctx, rng):
             for rooted in (True, False):
                 ta = dendropy.TreeArray(taxon_namespace=ns, use_tree_weights=False)
                 for s, w in ((t1, 3.0), (t2, 1.0), (t3, 1.0)):
-                    ta.add_tree(build(ref.copy(s), ns, rooted, w))
+                    D(ta.add_tree, build(ref.copy(s), ns, rooted, w))
                 mon.check_frequencies(ta.split_distribution, "directed")
                 tl = dendropy.TreeList(taxon_namespace=ns)
                 for s, w in ((t1, 3.0), (t2, 1.0), (t3, 1.0)):
                     tl.append(build(ref.copy(s), ns, rooted, w))
-                tl.consensus(min_freq=0.7, use_tree_weights=False)
+                D(tl.consensus, min_freq=0.7, use_tree_weights=False)
         elif name == "rooted-mcct-support":
             # clade {A,B} contains the first taxon: the restored rooted tree carries the complement mask
             for rooted in (True, False):
                 ta = dendropy.TreeArray(taxon_namespace=ns)
                 for s in (t1, t1, t2, t3):
-                    ta.add_tree(build(ref.copy(s), ns, rooted))
+                    D(ta.add_tree, build(ref.copy(s), ns, rooted))
                 mon.check_frequencies(ta.split_distribution, "directed")
-                ta.maximum_product_of_split_support_tree()
-                ta.maximum_sum_of_split_support_tree()
+                D(ta.maximum_product_of_split_support_tree)
+                D(ta.maximum_sum_of_split_support_tree)
         elif name == "legacy-consensus-no-root-length":
             trees = [build(ref.copy(s), ns, True) for s in (t1, t1, t2)]
-            try:
-                treesum.consensus_tree(trees, min_freq=0.5)    # root edge without a length: the normal case
-            except TypeError:
-                pass                                           # reported by the hook on tree_from_splits
+            D(treesum.consensus_tree, trees, min_freq=0.5)    # root edge without a length: the normal case
         elif name == "identical-float-lengths-sd":
             ta = dendropy.TreeArray(taxon_namespace=ns)
             for _ in range(3):
-                ta.add_tree(build(nested((("A", "B"), ("C", "D"), "E"), 0.1), ns, True))
+                D(ta.add_tree, build(nested((("A", "B"), ("C", "D"), "E"), 0.1), ns, True))
             mon.check_frequencies(ta.split_distribution, "directed")
-            ta.consensus_tree(min_freq=0.5)
+            D(ta.consensus_tree, min_freq=0.5)
         elif name == "stale-cache-after-more-trees":
             for rooted in (True, False):
                 sd = dendropy.SplitDistribution(taxon_namespace=ns)
-                sd.count_splits_on_tree(build(ref.copy(t1), ns, rooted))
+                D(sd.count_splits_on_tree, build(ref.copy(t1), ns, rooted))
                 mon.check_frequencies(sd, "directed")
                 mon.remember_table(sd)
-                sd.consensus_tree(min_freq=0.5)
+                D(sd.consensus_tree, min_freq=0.5)
                 t2l = nested((("A", "C"), ("B", "D"), "E"), 3.0)
-                sd.count_splits_on_tree(build(ref.copy(t2l), ns, rooted))
-                sd.count_splits_on_tree(build(ref.copy(t2l), ns, rooted))
+                D(sd.count_splits_on_tree, build(ref.copy(t2l), ns, rooted))
+                D(sd.count_splits_on_tree, build(ref.copy(t2l), ns, rooted))
                 # first reader after the additions is the summariser (it fetches the age / length tables
                 # before the frequency table), then a consensus, and only then an explicit frequency read
-                sd.summarize_splits_on_tree(build(ref.copy(t1), ns, rooted))
-                sd.consensus_tree(min_freq=0.6)
+                D(sd.summarize_splits_on_tree, build(ref.copy(t1), ns, rooted))
+                D(sd.consensus_tree, min_freq=0.6)
                 mon.check_frequencies(sd, "directed")
         elif name == "boundary-thresholds":
             for rooted in (True, False):
                 ta = dendropy.TreeArray(taxon_namespace=ns)
                 for s in (t1, t1, t1, t2):
-                    ta.add_tree(build(ref.copy(s), ns, rooted))
+                    D(ta.add_tree, build(ref.copy(s), ns, rooted))
                 mon.check_frequencies(ta.split_distribution, "directed")
                 for thr in (0.75, 0.25, 1.0, 0.5, 0.7500001):
-                    ta.consensus_tree(min_freq=thr)
+                    D(ta.consensus_tree, min_freq=thr)
                     tgt = build(ref.copy(t1), ns, rooted)
                     tgt.encode_bipartitions()
-                    ta.collapse_edges_with_less_than_minimum_support(tgt, min_freq=thr)
+                    D(ta.collapse_edges_with_less_than_minimum_support, tgt, min_freq=thr)
                     tgt = build(ref.copy(t2), ns, rooted)
                     tgt.encode_bipartitions()
-                    ta.collapse_edges_with_less_than_minimum_support(tgt, min_freq=thr)
+                    D(ta.collapse_edges_with_less_than_minimum_support, tgt, min_freq=thr)
         elif name == "unary-near-root-unrooted":
             # unrooted drawings with outdegree-1 nodes next to the root
             u1 = ref.S(None, [ref.S(None, [nested(("A", "B"))]), nested(("C", "D")), ref.S("E")])
@@ -668,8 +1004,82 @@ def run_directed(case, ctx, rng):
             for rooted in (False, True):
                 sd = dendropy.SplitDistribution(taxon_namespace=ns)
                 for s in (u1, u2, u3):
-                    sd.count_splits_on_tree(build(ref.copy(s), ns, rooted))
+                    D(sd.count_splits_on_tree, build(ref.copy(s), ns, rooted))
                 mon.check_frequencies(sd, "directed")
+        elif name == "merge-then-query":
+            # f({A,B}) = 2/3 after merging [t1] with [t1, t2] whichever way the collections are combined
+            for rooted in (True, False):
+                for how in ("extend", "iadd", "add", "update", "sd.update"):
+                    parts = []
+                    for group in ((t1,), (), (t1, t2)):
+                        p = dendropy.TreeArray(taxon_namespace=ns)
+                        for s in group:
+                            D(p.add_tree, build(ref.copy(s), ns, rooted, 2.0))
+                        if group:
+                            mon.check_frequencies(p.split_distribution, "directed")      # caches filled before the merge
+                        parts.append(p)
+                    m = parts[0]
+                    for p in parts[1:]:
+                        if how == "extend":
+                            D(m.extend, p)
+                        elif how == "iadd":
+                            m += p
+                        elif how == "add":
+                            m = m + p
+                        elif how == "update":
+                            D(m.update, p)
+                        else:
+                            D(m.split_distribution.update, p.split_distribution)
+                    mon.check_frequencies(m.split_distribution, "directed")
+                    D(m.split_distribution.consensus_tree, min_freq=0.6)
+                    if how != "sd.update":
+                        D(m.maximum_product_of_split_support_tree)
+        elif name == "changed-in-place-then-requeried":
+            # one tree object: counted, B and C exchanged in place, counted / summarised / collapsed again
+            for rooted in (True, False):
+                tl = dendropy.TreeList(taxon_namespace=ns)
+                t = build(ref.copy(t1), ns, rooted)
+                tl.append(t)
+                tl.append(build(ref.copy(t3), ns, rooted))
+                D(tl.split_distribution)
+                sd = dendropy.SplitDistribution(taxon_namespace=ns)
+                D(sd.count_splits_on_tree, t)
+                tgt = build(ref.copy(t1), ns, rooted)
+                D(sd.summarize_splits_on_tree, tgt, add_support_as_node_attribute=False)
+                lv = dict((nd.taxon.label, nd) for nd in t.leaf_node_iter())
+                lv["B"].taxon, lv["C"].taxon = lv["C"].taxon, lv["B"].taxon
+                D(tl.split_distribution)
+                D(tl.consensus, min_freq=0.5)
+                D(sd.count_splits_on_tree, t)
+                mon.check_frequencies(sd, "directed")
+                lv = dict((nd.taxon.label, nd) for nd in tgt.leaf_node_iter())
+                lv["B"].taxon, lv["C"].taxon = lv["C"].taxon, lv["B"].taxon
+                mon.force_deep = True
+                D(sd.summarize_splits_on_tree, tgt, add_support_as_node_attribute=False)
+                mon.force_deep = False
+                D(sd.collapse_edges_with_less_than_minimum_support, tgt, min_freq=0.75)
+        elif name == "requests-through-aliases":
+            # every alias must hand the caller's threshold / settings / flags to the function that does the work
+            for rooted in (True, False):
+                tl = dendropy.TreeList(taxon_namespace=ns)
+                ta = dendropy.TreeArray(taxon_namespace=ns)
+                for s, w in ((t1, 1.0), (t1, 1.0), (t2, 2.0), (t3, 1.0)):
+                    tl.append(build(ref.copy(s, ), ns, rooted, w))
+                    D(ta.add_tree, build(ref.copy(s), ns, rooted, w))
+                for thr in (0.3, 0.45, 0.9, None):
+                    D(tl.consensus, min_freq=thr, support_as_percentages=True, set_support_as_node_label=True)
+                    D(tl.consensus, min_freq=thr, use_tree_weights=False)
+                    D(ta.consensus_tree, min_freq=thr, support_as_percentages=True)
+                    tgt = build(ref.copy(t1), ns, rooted)
+                    D(ta.summarize_splits_on_tree, tgt, support_as_percentages=True, set_support_as_node_label=True,
+                      support_label_decimals=1)
+                    tgt = build(ref.copy(t2), ns, rooted)
+                    tgt.encode_bipartitions()
+                    D(ta.collapse_edges_with_less_than_minimum_support, tgt, min_freq=0.3 if thr is None else thr)
+                D(ta.restore_tree, 2, summarize_splits_on_tree=True, support_as_percentages=True)
+                D(tl.as_tree_array, use_tree_weights=False)
+                D(tl.split_distribution, use_tree_weights=False)
+                D(treesum.consensus_tree, list(tl), min_freq=0.45, support_as_percentages=True, support_label_decimals=1)
         ctx.sample({"kind": "directed", "name": name})
 
 
@@ -684,6 +1094,10 @@ def run_case(case, ctx):
         wsel = (i + j) % 3
         weights = [None, None] if wsel == 0 else ([2.0, 1.0] if wsel == 1 else [1.0, 3.0])
         run_small(ctx, rng, [sh[i], sh[j]], case["rooted"], weights, sample=(i == 3 and j == 7))
+    elif kind == "tiny":
+        i, j = case["idx"]
+        sh = gen.all_shapes(case["n"])
+        run_small(ctx, rng, [sh[i], sh[j]], case["rooted"], [None, 2.0] if (i + j) % 2 else [None, None])
     elif kind == "smallrand":
         n = rng.choice([4, 4, 5, 5, 6])
         sh = gen.all_shapes(n)
